@@ -19,6 +19,7 @@ type expiryManager struct {
 	timer          *time.Timer // Schedules expiration of docs
 	nextExp        *uint32     // Timestamp when expTimer will run (0 if never)
 	expirationFunc func()      // Function to call when timer expires
+	stopped        bool        // Set by stop(); a timer callback that was already released does nothing
 }
 
 func newExpirationManager(expiractionFunc func()) *expiryManager {
@@ -34,6 +35,7 @@ func newExpirationManager(expiractionFunc func()) *expiryManager {
 func (e *expiryManager) stop() {
 	e.mutex.Lock()
 	defer e.mutex.Unlock()
+	e.stopped = true
 	if e.timer != nil {
 		e.timer.Stop()
 	}
@@ -103,5 +105,9 @@ func (e *expiryManager) _scheduleExpirationAtOrBefore(exp uint32) {
 func (e *expiryManager) runExpiry() {
 	e.mutex.Lock()
 	defer e.mutex.Unlock()
+	if e.stopped {
+		// The timer fired before stop() could cancel it; the database may already be closed.
+		return
+	}
 	e.expirationFunc()
 }
